@@ -66,6 +66,18 @@ def build():
                                 cases.append({'sql': sql, 'spec': spec, 'tab': tab, 'cols': cols, 'window': window,
                                               'gcols': gcols, 'cond': ck, 'side': side, 'limit': limit, 'pf': pf, 'ng': ng,
                                               'shape': shape})
+    # the same joins executed as prepared statements: a partition filter written as an IN list that mixes a placeholder with a
+    # literal and covers every partition (so it filters nothing), the time bound given as a parameter
+    for ng, (tab, cols, gcols) in GROUPS.items():
+        if not gcols:
+            continue
+        for window in (1, 2):
+            for ck, op in (('>', '>'), ('>=', '>='), ('<', '<')):
+                v = 1 if op != '<' else 2
+                sql = 'select * from int1.%s as t join mindsdb.m as m where t.g in (?, 2) and t.ts %s ?' % (tab, op)
+                spec = dict(CONDS[ck][1], on=1, window=window, tcol='ts', gcols=gcols, pf=[])
+                cases.append({'sql': sql, 'spec': spec, 'tab': tab, 'cols': cols, 'window': window, 'gcols': gcols, 'cond': ck,
+                              'side': 'right', 'limit': None, 'pf': [], 'ng': ng, 'shape': 'prepared-inlist', 'params': [1, v]})
     return cases
 
 
@@ -98,6 +110,12 @@ def _plan(c):
         return jdump(proj(n))
     out = dict(c)
     try:
+        # earlier statements of the same process (a parser must not carry anything over from them)
+        for pre in ('select (latest) as x from t', 'select latest as y, (latest) from t where (a) > (latest)'):
+            try:
+                parse_sql(pre, 'mindsdb')
+            except Exception:   # noqa
+                pass
         tree = parse_sql(c['sql'], 'mindsdb')
         user_filter = None
         if c['cond'] != 'none':
@@ -113,7 +131,25 @@ def _plan(c):
                     found.append(n)
             walk(w)
             user_filter = norm(found[0]) if found else None
-        plan = plan_query(parse_sql(c['sql'], 'mindsdb'), **catalog(c['window'], c['gcols']))
+        if c.get('params') is not None:
+            from mindsdb_sql.planner.query_planner import QueryPlanner
+            pl_ = QueryPlanner(**catalog(c['window'], c['gcols']))
+            for st_ in pl_.prepare_steps(parse_sql(c['sql'], 'mindsdb')) or []:
+                # answer the planner's questions about columns the way an executor would
+                k_ = type(st_).__name__
+                if k_ == 'GetTableColumns':
+                    al = ('int1', str(st_.table), str(st_.table))
+                    st_.set_result({'values': [], 'columns': {al: [{'name': x_, 'type': 'int'} for x_ in c['cols']]}, 'tables': [al]})
+                elif k_ == 'GetPredictorColumns':
+                    al = ('mindsdb', 'm', 'm')
+                    st_.set_result({'values': [], 'columns': {al: [{'name': x_, 'type': 'int'} for x_ in c['cols'] + ['y']]}, 'tables': [al]})
+                else:
+                    st_.set_result(None)
+            plan = type('P', (), {})()
+            plan.steps = list(pl_.execute_steps(list(c['params'])) or [])
+            user_filter = None      # the bound is a parameter: the output filter is not compared textually
+        else:
+            plan = plan_query(parse_sql(c['sql'], 'mindsdb'), **catalog(c['window'], c['gcols']))
     except (PlanningException, NotImplementedError) as e:
         out['status'] = 'refused:%s' % str(e)[:80]
         return out
@@ -127,7 +163,7 @@ def _plan(c):
         out['status'] = 'no-single-apply'
         return out
     otf = ap[0].output_time_filter
-    out['otf_ok'] = (otf is None and user_filter is None) or (otf is not None and user_filter is not None and norm(otf) == user_filter)
+    out['otf_ok'] = c.get('params') is not None or (otf is None and user_filter is None) or (otf is not None and user_filter is not None and norm(otf) == user_filter)
     out['otf'] = str(otf)
     ji = kinds.index('JoinStep') if 'JoinStep' in kinds else -1
     out['limit_after_join'] = ('LimitOffsetStep' in kinds[ji + 1:]) if ji >= 0 else False
